@@ -67,8 +67,9 @@ def main(tier, seed):
             if rk != "ack" and (nq, nr) not in ((1, 1), (2, 1)):
                 continue
             for retries in ((0, 1, 3) if (nq, nr) == (1, 1) else (1,)):
+                # (1 x 1: the settings come from a local device object, as in an application; else from the access point)
                 rc = tsmlib.rig_cfg(seg=50, nq=nq, nr=nr, rk=rk, retries=retries, pwc=rng.choice([1, 2, 4, 8]), pws=rng.choice([1, 2, 3, 8]),
-                                    maxsegs=None)
+                                    maxsegs=None, via_device=(nq, nr) == (1, 1))
                 base = single_fault_traces(rc)
                 for t in base:
                     traces.append(t)
@@ -87,6 +88,16 @@ def main(tier, seed):
                     for ka, kb in (itertools.product(("drop", "dup", "delay"), repeat=2) if thorough else [(rng.choice(["drop", "dup", "delay"]), rng.choice(["drop", "dup", "delay"]))]):
                         traces.append(tsmlib.record(rc, faults={a: ka, b: kb}, order=rng.choice(["fifo", "timers"])))
                         chk.case(("pair", nq, nr, rk, retries, a, ka, b, kb), nontrivial=True)
+    # what the client knows about the server changes hands while the transaction is open: a record filed by address only (or by an
+    # earlier I-Am) is completed by the server's I-Am at every frame of the exchange -- the outcome still arrives, nothing is left
+    for known in ("addr", True):
+        for nq, nr in ((1, 1), (2, 1), (1, 3)):
+            rc0 = tsmlib.rig_cfg(seg=50, nq=nq, nr=nr, maxsegs=None, known=known)
+            nfr = len(tsmlib.record(rc0)["frames"])
+            for k in range(1, nfr + 1):
+                t = tsmlib.record(dict(rc0, iam_on_frame=k))
+                traces.append(t)
+                chk.case(("iam-during", known, nq, nr, k), nontrivial=True)
     # sizes on both sides of every segmentation boundary, slow application
     for seg in (50, 128, 480, 1476):
         for L in (seg - 1, seg, seg + 1, 2 * seg, 2 * seg + 1):
@@ -102,7 +113,7 @@ def main(tier, seed):
     for n in range(1500 if thorough else 150):
         rc = tsmlib.rig_cfg(seg=rng.choice([50, 128]), nq=rng.randint(1, 4), nr=rng.randint(0, 4), pwc=rng.randint(1, 8), pws=rng.randint(1, 8),
                             retries=rng.randint(0, 3), rk=rng.choice(["ack", "ack", "ack", "error", "abort"]),
-                            app_delay=rng.choice([0, 0, 0, 2000, 4000]), maxsegs=None)
+                            app_delay=rng.choice([0, 0, 0, 2000, 4000]), maxsegs=None, via_device=rng.random() < 0.5)
         nf = rng.randint(1, 12)
         faults = {rng.randint(1, 40): rng.choice(["drop", "dup", "delay"]) for _ in range(nf)}
         s = rng.randrange(1 << 30)
